@@ -26,8 +26,10 @@ on the SAME object -> query (both points symbolic) and decide the second answer
 against the oracle of the transformed node positions (task_history).
 
 The point's bounding box (geometry bounds + 10 % on each side) is cut into
-sub-boxes which run as parallel tasks.  Thorough tier only: column_track on
-tiny rectangular grids (see task_track).
+sub-boxes which run as parallel tasks.  column_track: oblique lines with a
+concrete Pythagorean direction and a SYMBOLIC offset on small grids including a
+non-convex column (task_otrack, both tiers); thorough tier also axis-parallel
+lines with symbolic end points on tiny rectangular grids (task_track).
 """
 import math
 import time
@@ -882,6 +884,20 @@ def run(tier, seed, rep):
                    'real in-place rotate(angle[, centre]) / translate(shift) / both / nothing, with CONCRETE parameters (37 deg about the grid centre, -20 deg about (1, 1), shift (7, -13, 5)) -> '
                    'second query (aid configuration built from the object as it is then, or block_name_containing_point with symbolic z) with a symbolic point anywhere in the '
                    '10 %%-enlarged bounding box of the transformed geometry; both answers decided against the oracle of the node positions after the operations' % nhist]
+    rep.bounds += ['column_track, OBLIQUE lines (both tiers): %d families (geometry x direction x end-point shape) on rect22, rect31, rect3c (columns 1x2 .. 100x20 side by side), '
+                   'notch3 (an L-shaped NON-CONVEX column with a square column in its notch and a pentagon) and mix5: direction concrete with integer components and integer length '
+                   '((3,4), (-4,3), (5,12), (12,-5) ...), length concrete, line family P0 = A + o*N, P1 = P0 + L*D with the offset o SYMBOLIC over a range that sweeps the line across the '
+                   'whole geometry and beyond on both sides; end-point shapes: both ends outside the bounding box / start (end) sweeping across the geometry along the normal through the '
+                   'centre of the box with the other end outside / both ends inside (short segment).  End points farther than tau from every edge line; lines not along an edge.  '
+                   'Obligations per path (an interval of offsets): every listed segment has entry and exit on the line (1e-6 of the smallest column side + 1e-8 of the line length slack) '
+                   'and the line is inside the listed column (convex pieces, half-planes) all the way between them; segments ordered by distance from the start, no two overlap; for every '
+                   'column the listed length equals the length of the line inside it up to (number of convex pieces) clips of at most 1e-3 of its longest side; a convex column is listed at most once.  '
+                   'Non-convex columns only: a segment may span a notch clip shorter than 1e-3 of the column diameter.' % len(otrack_plan(tier))]
+    rep.assumptions += ['oblique track tasks: stub norm(v) = |v . D| / |D| for a symbolic vector that the solver proves parallel to the concrete line direction D on the path (|D| integer); '
+                        'the 2x2 Cramer solve of the engine with its results expanded to sums of monomials (same values, syntactically linear in the offset); '
+                        'round-half-even via ToInt and np.unique(return_index) as for the axis-parallel track tasks',
+                        'oblique track oracle: length of the line inside a column = sum over its convex pieces (the polygon itself, or its ear-clipping triangles) of the '
+                        'interval cut out by the half-planes of the piece']
     rep.outside += ['symbolic geometries (node positions are concrete numbers; only the point is symbolic)',
                     'points within tau of an edge line, elevations within tau_z of a layer boundary or surface (the quantifier excludes them)',
                     'full shipped geometries (sub-meshes of g2, g5, g7 cut by breadth-first neighbourhood + real reduce())',
@@ -907,7 +923,8 @@ def run(tier, seed, rep):
                           'geometry.py:in_polygon', 'geometry.py:in_rectangle', 'geometry.py:rectangles_intersect',
                           'mulgrids.py:mulgrid.block_name_containing_point', 'mulgrids.py:mulgrid.layer_containing_elevation',
                           'mulgrids.py:mulgrid.column_quadtree', 'mulgrids.py:mulgrid.column_bounds', 'mulgrids.py:mulgrid.rotate', 'mulgrids.py:mulgrid.translate',
-                          'mulgrids.py:column.get_bounding_box'])
+                          'mulgrids.py:column.get_bounding_box', 'mulgrids.py:mulgrid.column_track', 'geometry.py:line_polygon_intersections',
+                          'geometry.py:line_intersects_rectangle', 'geometry.py:simplify_polygon', 'mulgrids.py:mulgrid.get_boundary_polygon'])
     rep.process_failures()
     return rep.finish(rule='one obligation per (geometry, aid configuration or query/operation/query history, sub-box, path): pc AND NOT(oracle agrees) must be unsat; '
                            'a path is one cell of the arrangement of the hyperplanes the real code compares the point against; '
@@ -917,11 +934,15 @@ def run(tier, seed, rep):
 # ---------------------------------------------------------------------------
 # column_track (thorough tier): axis-parallel lines on tiny rectangular grids
 
-TRACK_OUTSIDE = ['column_track for lines that are not axis-parallel (4 symbolic end-point coordinates: Cramer quotients under sqrt and '
-                 '3-decimal rounding gave z3 "unknown" on most branch queries: 72 of 200 in 8 paths / 776 s; fixed 3-4-5 direction: 8 paths / 200 s), '
-                 'column_track on grids beyond 2x2 / 3x1 and on non-rectangular columns',
-                 'column_track for lines starting far outside the grid (the 3-decimal rounding of distances normalised by the last crossing distance '
-                 'merges crossings closer than 5e-4 of that distance; inside the 10 % box this only affects the corner clips the statement excludes)']
+TRACK_OUTSIDE = ['column_track for lines with SYMBOLIC direction or length (4 symbolic end-point coordinates: Cramer quotients under sqrt and '
+                 '3-decimal rounding gave z3 "unknown" on most branch queries: 72 of 200 in 8 paths / 776 s); oblique lines are checked for concrete '
+                 'Pythagorean directions and concrete lengths with a symbolic offset only (see bounds); directions with an irrational length (45 degrees)',
+                 'column_track on geometries other than rect22 / rect31 (axis-parallel, symbolic end points) and rect22 / rect31 / rect3c / notch3 / mix5 (oblique); '
+                 'geometries whose coordinates are not small dyadic numbers (the concrete parts of the crossing computation are then rounded in floating point '
+                 'and a crossing point is no longer exactly on the line, which the direction-norm stub needs)',
+                 'column_track: columns more than 1000 times longer than wide crossed over their full width (shorter than 1e-3 of their longest side: dropped by the '
+                 'same length rule as corner clips); columns with 6 or more nodes whose diameter exceeds twice the longest side (duplicate merging threshold 5e-4 x '
+                 'diameter could exceed the 1e-3 x longest side allowance) - none in the catalogue']
 
 
 def _install_track_stubs(ld):
